@@ -3,6 +3,7 @@
 //   1 next(a)            -> start end cursor
 //   2 publish(a, b)      -> cursor
 //   3 gating[a].set(b)   -> cursor
+//   4 next(a) issued EVEN IF it must block (probe of the back pressure: the expected outcome is that the call does not return, -888)
 // A next() that must block by the documented capacity rule (computed here from the harness' own bookkeeping, not
 // from anything the sequencer returned) is not called: the case ends with -777, like the model.  A call that does
 // not return within 1.5 s ends the case with -888.
@@ -39,6 +40,12 @@ fn drive<S: Sequencer>(mut seq: S, multi: bool, size: u64, ng: usize, ops: &[i12
                 }
                 let (s, e) = seq.next(c as usize);
                 claimed += c;
+                out.push(s as i128);
+                out.push(e as i128);
+            }
+            4 => {
+                let (s, e) = seq.next(ch[1] as usize);
+                claimed += ch[1] as u64;
                 out.push(s as i128);
                 out.push(e as i128);
             }
